@@ -62,26 +62,112 @@ def _swap_prone(F, t):
     return False
 
 
-def _stable_atoms(e):
-    """Origin atoms that survive renames and re-formatting: parameters with their field paths, callee names, constant items,
-    and the name of every field that is projected (`field:kernel_mmr_size`) so that same-typed siblings are told apart."""
+STD_ARITH = {
+    "num::saturating_sub": "op:Sub", "num::checked_sub": "op:Sub", "num::wrapping_sub": "op:Sub", "num::overflowing_sub": "op:Sub",
+    "num::saturating_add": "op:Add", "num::checked_add": "op:Add", "num::wrapping_add": "op:Add", "num::overflowing_add": "op:Add",
+    "num::saturating_mul": "op:Mul", "num::checked_mul": "op:Mul", "num::wrapping_mul": "op:Mul",
+    "num::checked_div": "op:Div", "num::checked_rem": "op:Rem", "num::pow": "op:pow", "num::checked_pow": "op:pow",
+    "cmp::min": "op:min", "cmp::max": "op:max", "Ord::min": "op:min", "Ord::max": "op:max", "Ord::clamp": "op:clamp",
+    "num::leading_zeros": "op:leading_zeros", "num::trailing_zeros": "op:trailing_zeros", "num::count_ones": "op:count_ones",
+    "num::abs": "op:abs", "num::abs_diff": "op:abs_diff",
+}
+CANON_OP = {"Lt": "Gt", "Le": "Ge", "Ne": "Eq"}
+_WS_SHORT = {}
+
+
+def ws_short_names(F):
+    """Short names (`Type::method`, `Trait::method`, `module::function`) of every function the workspace defines, now or on the reviewed tree."""
+    got = _WS_SHORT.get(id(F))
+    if got is None:
+        cur = {short(k, 2) for k in F.fns}
+        cur |= {short(k, 2) for k in getattr(F, "absorbed_fns", {})}
+        base = set()
+        try:
+            base = {short(k, 2) for k in json.load(open(os.path.join(VERIF, "baseline", "functions.json")))}
+        except (OSError, ValueError):
+            pass
+        got = (cur, base)
+        _WS_SHORT[id(F)] = got
+    return got
+
+
+def _stab(F, e_or_atoms):
+    """Origin atoms that survive refactoring: parameters with their field paths, names of projected fields, workspace callees, integer values
+    (a literal and a named constant of the same value are the same atom) and arithmetic operators (checked/saturating forms and min/max
+    included). Calls into std/external crates (iterators, collections, Option/Result plumbing) are representation, not origin."""
+    at = e_or_atoms if isinstance(e_or_atoms, (set, list, tuple, frozenset)) else atoms(e_or_atoms)
+    cur, base = ws_short_names(F)
     out = set()
-    for a in atoms(e):
-        if a.startswith("const:") or a.startswith("op:"):
+    for a in at:
+        if a.startswith("const:"):
+            m = re.match(r"^const:(-?\d{1,12})$", a)
+            if m:
+                out.add("val:" + m.group(1))
             continue
         if a.startswith("item:"):
-            out.add(a.split("=")[0])
+            m = re.search(r"=(-?\d{1,12})$", a)
+            if m:
+                out.add("val:" + m.group(1))
+            elif not a.startswith("item:fn ") and not a.startswith("item:closure "):
+                out.add(a)
+            continue
+        if a.startswith("op:"):
+            o = a[3:].replace("WithOverflow", "")
+            if o == "Not":
+                continue
+            out.add("op:" + CANON_OP.get(o, o))
             continue
         if a.startswith("call:"):
-            out.add(a)
+            n = a[5:]
+            if n in STD_ARITH:
+                out.add(STD_ARITH[n])
+            elif n in cur or n in base:
+                out.add(a)
             continue
-        # field paths
-        m = re.search(r"\.([a-z_][a-z0-9_]*|\d)$", a)
+        m = re.search(r"\.([a-z_][a-z0-9_]*)$", a)
         if m:
             out.add("field:" + m.group(1))
         if re.match(r"^arg\d+(\.[a-z_][a-z0-9_]*)*$", a) and len(a) <= 70:
             out.add(a)
     return sorted(out)
+
+
+def _live_atoms(F, atom_list):
+    """Baseline atoms that can still be expected: a call atom of a function that no longer exists (inlined or renamed) is dropped."""
+    cur, _base = ws_short_names(F)
+    return {a for a in atom_list if not (a.startswith("call:") and a[5:] not in cur)}
+
+
+GATE = ("try", "match", "match-far", "isok", "bool", "plain-return")
+
+
+def _calls_of(F, key):
+    """Workspace calls and state-changing (sink) calls of a function, with their success edges."""
+    fn = F.fns[key]
+    ex = Exprs(fn)
+    live = live_blocks(fn)
+    calls = []
+    for bi, t in F.calls(key):
+        if bi not in live:
+            continue
+        names = callee_names(t)
+        if not names or NOISE.match(names[0]) or set((t.get("span") or {}).get("macros", [])) & {"debug", "trace", "info", "warn", "error", "format", "write", "println"}:
+            continue
+        ws = _is_ws(names)
+        sink = (bool(SINK.search(strip_impl(names[-1]))) or bool(SINK.search(names[0]))) and not ALLOC_HINT.search(names[0])
+        if not ws and not sink:
+            continue
+        e, kind = success_edges(fn, bi)
+        calls.append({"bi": bi, "key": call_key(fn, t, ex), "ws": ws, "sink": sink, "edges": e, "kind": kind, "t": t})
+    return calls
+
+
+def _recv_is_state(fn, t, ex):
+    """The receiver of a std sink call (`push`, `insert`, `retain`, ...) is a field of a parameter (shared state), not a local collection."""
+    if not t["args"]:
+        return False
+    r = render(ex.operand(t["args"][0]))
+    return bool(re.match(r"^arg\d+(\.[a-z_][a-z0-9_]*)+$", r))
 
 
 def summarize(F, key):
@@ -91,25 +177,17 @@ def summarize(F, key):
     rets = return_blocks(fn)
     is_res = is_result_ty(fn["locals"][0]["s"])
     dead = error_exit_blocks(fn) if is_res else set()
-    calls = []
-    for bi, t in F.calls(key):
-        if bi not in live:
-            continue
-        names = callee_names(t)
-        if not names or NOISE.match(names[0]) or set((t.get("span") or {}).get("macros", [])) & {"debug", "trace", "info", "warn", "error", "format", "write", "println"}:
-            continue
-        ws = _is_ws(names)
-        sink = bool(SINK.search(strip_impl(names[-1]))) or bool(SINK.search(names[0]))
-        if not ws and not sink:
-            continue
-        e, kind = success_edges(fn, bi)
-        calls.append({"bi": bi, "key": call_key(fn, t, ex), "ws": ws, "sink": sink, "edges": e, "kind": kind, "t": t})
+    calls = _calls_of(F, key)
     by_key = collections.defaultdict(list)
     for c in calls:
         by_key[c["key"]].append(c)
-    # must: cutting the success edges of every call with this key makes the non-error exits unreachable
+    # must: cutting the success edges of every call with this key makes the non-error exits unreachable.
+    # Only gates (calls whose result decides the continuation) and state changes count: a value computed by a plain call shows up in the
+    # origins of whatever uses it.
     must = []
     for k, lst in sorted(by_key.items()):
+        if not any(c["sink"] or c["kind"] in GATE for c in lst):
+            continue
         cuts = []
         for c in lst:
             if c["kind"] in ("unchecked", "diverges"):
@@ -120,7 +198,7 @@ def summarize(F, key):
             must.append(k)
     # order: A before sink B
     order = []
-    checks = [c for c in calls if c["kind"] in ("try", "match", "match-far", "isok", "bool", "plain-return") and c["ws"]]
+    checks = [c for c in calls if c["kind"] in GATE and c["ws"]]
     ckeys = sorted({c["key"] for c in checks})
     for bk, blst in sorted(by_key.items()):
         if not any(c["sink"] for c in blst):
@@ -134,29 +212,25 @@ def summarize(F, key):
                 cuts += c["edges"]
             if cuts and reach(fn, [0], targets, cuts) is None:
                 order.append([ak, bk])
-    # args of sink calls, and of calls to workspace functions with two parameters of the same type (swap-prone)
+    # args of workspace sink calls, of std sink calls on shared state, and of workspace calls with two parameters of the same type (swap-prone)
     args = {}
     for bk, blst in sorted(by_key.items()):
-        if not any(c["sink"] or _swap_prone(F, c["t"]) for c in blst):
+        keep = [c for c in blst if (c["sink"] and (c["ws"] or _recv_is_state(fn, c["t"], ex))) or (c["ws"] and _swap_prone(F, c["t"]))]
+        if not keep:
             continue
-        alts = []
-        for c in blst:
-            al = [_sig_atoms(ex.operand(a)) for a in c["t"]["args"][:6]]
-            if ALLOC_HINT.search(callee_names(c["t"])[0]):
-                al = [[x for x in a if not x.startswith("const:")] for a in al]
-            alts.append(al)
-        args[bk] = alts
-    # guards: every real branch condition (comparisons with operand origins, boolean calls) - `?`, log-level tests and loop headers excluded
+        args[bk] = [[_stab(F, ex.operand(a)) for a in c["t"]["args"][:6]] for c in keep]
+    # guards: every real branch condition - `?`, log-level tests and loop headers excluded
     conds = {}
     guards = []
     for bi, e, arms, els in switch_conditions(fn):
         if _is_try_switch(fn, bi):
             continue  # `?`: covered by the must/order summaries
-        sig = cond_signature(e)
+        sig = cond_signature(F, e)
         if sig is None:
             continue
         conds[bi] = (sig, dict(arms), els)
-        guards.append(sig)
+        if sig not in guards:
+            guards.append(sig)
     guards.sort(key=lambda g: json.dumps(g))
     # silent: conditions a state-changing call is control dependent on whose other outcome carries on normally (not a rejection)
     silent = {}
@@ -172,7 +246,6 @@ def summarize(F, key):
                 continue
             for v, t2 in outs:
                 if reach(fn, [0], targets, [(bi, t2)]) is None and reach(fn, [0], targets) is not None:
-                    # taking this edge is necessary to reach B; is some other outcome a normal continuation?
                     others = [x for _w, x in outs if x != t2]
                     if any(reach(fn, [x], ok_rets, (), dead) is not None for x in others):
                         found.append([sig, v])
@@ -189,21 +262,31 @@ def summarize(F, key):
             fields = [p["f"] for p in st["dst"]["p"] if isinstance(p, dict) and "f" in p]
             if not fields or not re.match(r"^[a-z_]", fields[-1]):
                 continue
-            a = _sig_atoms(ex.rvalue(st["rv"], 0, ()))
-            assigns.setdefault(".".join(fields), []).append(a)
+            assigns.setdefault(".".join(fields), []).append(_stab(F, ex.rvalue(st["rv"], 0, ())))
         t = b["term"]
         if t["k"] == "call" and t["dst"]["p"] and (1 <= t["dst"]["l"] <= fn["argc"] or _derives_from_param(fn, t["dst"]["l"])):
             fields = [p["f"] for p in t["dst"]["p"] if isinstance(p, dict) and "f" in p]
             if fields and re.match(r"^[a-z_]", fields[-1]):
-                assigns.setdefault(".".join(fields), []).append(_sig_atoms(ex.call(t, 0, ())))
+                assigns.setdefault(".".join(fields), []).append(_stab(F, ex.call(t, 0, ())))
     # ret: origins of the value a pure (non-Result) function returns
     ret = None
     rty = fn["locals"][0]["s"]
     if not is_res and rty not in ("()", "!") and not rty.startswith("core::option::Option<alloc::boxed") and fn["kind"] != "Closure":
-        a = _sig_atoms(ex.local(0, 0, ()))
+        a = _stab(F, ex.local(0, 0, ()))
         if 0 < len(a) <= 24:
             ret = a
-    return {"must": must, "order": order, "args": args, "guards": guards, "silent": silent, "assigns": assigns, "ret": ret, "consts": const_census(fn)}
+    # every stable atom the function computes with (the universe when a construct moved between a function and its closures)
+    universe = set()
+    for bi, t in F.calls(key):
+        if bi in live:
+            universe |= set(_stab(F, ex.call(t, 0, ())))
+    for sig, _am, _els in conds.values():
+        universe |= set(sig[1]) | set(sig[2])
+    if ret:
+        universe |= set(ret)
+    gates = sorted({c["key"] for c in calls if c["kind"] in GATE or c["sink"]})
+    return {"must": must, "order": order, "args": args, "guards": guards, "silent": silent, "assigns": assigns, "ret": ret,
+            "consts": const_census(fn), "universe": sorted(universe), "gates": gates}
 
 
 ALLOC_HINT = re.compile(r"::(with_capacity|reserve|reserve_exact)$")
@@ -298,8 +381,9 @@ def _is_try_switch(fn, bi):
     return False
 
 
-def cond_signature(e):
-    """[op, lhs atoms, rhs atoms] for comparisons, ["cond", atoms, []] for boolean calls / flags; None for `?`, log tests, loop headers."""
+def cond_signature(F, e):
+    """[op, lhs atoms, rhs atoms] for comparisons (canonical under polarity and operand order), ["branch", atoms, []] for any other test
+    of a value (bool call, flag, `match`/`if let` on a call result); None for `?`, log tests, loop headers and tests of nothing stable."""
     txt = render(e)
     if "Try::branch" in txt or "max_level" in txt or "STATIC_MAX_LEVEL" in txt or txt.startswith("PartialOrd::le(Level::"):
         return None
@@ -310,9 +394,9 @@ def cond_signature(e):
     c = as_cmp(e)
     if c:
         op, l, r = c
-        la, ra = _sig_atoms(l), _sig_atoms(r)
-        # canonical form independent of branch polarity and operand order: a comparison and its negation are the same test
-        #   a > b, a <= b -> Gt(a, b)      a < b, a >= b -> Gt(b, a)      a == b, a != b -> Eq(sorted sides)
+        la, ra = _stab(F, l), _stab(F, r)
+        if not la and not ra:
+            return None
         if op in ("Eq", "Ne"):
             if json.dumps(la) > json.dumps(ra):
                 la, ra = ra, la
@@ -320,27 +404,15 @@ def cond_signature(e):
         if op in ("Gt", "Le"):
             return ["Gt", la, ra]
         return ["Gt", ra, la]
-    neg = False
     ee = e
     while ee.kind == "un" and ee.a == "Not":
         ee = ee.kids[0]
     if ee.kind == "discr":
-        inner = ee.kids[0]
-        # `match x {..}` / `if let` on a call result that is not a plain `?`
-        a = _sig_atoms(inner)
-        return ["match", a, []] if a else None
-    a = _sig_atoms(ee)
-    return ["cond", a, []] if a else None
-
-
-def _sig_atoms(e):
-    out = set(_stable_atoms(e))
-    for a in atoms(e):
-        if a.startswith("const:") and re.match(r"^const:\d{1,6}$", a):
-            out.add(a)
-        if a.startswith("op:") and a not in ("op:Not",):
-            out.add(a.replace("WithOverflow", ""))
-    return sorted(out)
+        ee = ee.kids[0]
+    a = [x for x in _stab(F, ee) if not x.startswith("val:") and not x.startswith("op:")]
+    if not any(x.startswith("call:") or re.match(r"^arg\d+\.", x) for x in a):
+        return None
+    return ["branch", a, []]
 
 
 def scope(F, prop_record, depth=2, want_named=False):
@@ -439,8 +511,94 @@ def generate(F, prop_record, named_elsewhere=()):
         s = summarize(F, k)
         if s["must"] or s["order"] or s["args"] or s["guards"] or s["assigns"] or s["ret"] or s["consts"]:
             s["named"] = k in named
+            s["closure"] = F.fns[k]["kind"] == "Closure"
+            base_k = re.sub(r"(::\{closure#\d+\})+$", "", k)
+            s["callers"] = sorted({_closure_role(F, c) for name in (k, strip_impl(k)) for (c, _bi) in F.callers.get(name, []) if c != k})[:12] if not s["closure"] else []
+            s.pop("universe", None)
             out[_closure_role(F, k)] = s
     return out
+
+
+def _short_callee(key):
+    """`Type::method#2(arg0.field)` -> `Type::method`"""
+    return re.sub(r"#\d+$", "", re.sub(r"\(.*$", "", key))
+
+
+def _cluster(F, k):
+    """The function, its closures (transitively) and the workspace functions it calls directly (a construct may legitimately move between them:
+    a loop body becomes a closure of an iterator adaptor, a block becomes a helper)."""
+    out = [k]
+    seen = {k}
+    frontier = [k]
+    for _ in range(3):
+        nxt = []
+        for x in frontier:
+            for _bi, t in F.calls(x):
+                for c in t.get("ncallables", []):
+                    if c in F.fns and c not in seen:
+                        seen.add(c)
+                        nxt.append(c)
+        out += nxt
+        frontier = nxt
+    closures = list(out[1:])
+    helpers = []
+    for x in [k] + closures:
+        for h in _direct_helpers(F, x):
+            if h not in seen:
+                seen.add(h)
+                helpers.append(h)
+    return closures, helpers
+
+
+class _Cur:
+    """Lazily computed summaries of the current tree."""
+
+    def __init__(self, F):
+        self.F = F
+        self.s = {}
+
+    def get(self, k):
+        if k not in self.s:
+            self.s[k] = summarize(self.F, k)
+        return self.s[k]
+
+
+def _guard_present(ctx, cs, k, g, closures, helpers):
+    F = ctx.F
+    cur_names, _b = ws_short_names(F)
+    g1, g2 = _live_atoms(F, g[1]), _live_atoms(F, g[2])
+    pool = [k] + closures + helpers
+    if g[0] == "branch":
+        if not g1:
+            return True
+        for x in pool:
+            for cg in cs.get(x)["guards"]:
+                if g1 <= (set(cg[1]) | set(cg[2])):
+                    return True
+        # the tested calls are still made and still gate the continuation (`match f() {Err(e) => return Err(e), ..}` became `f()?`,
+        # a combinator, or an iterator adaptor), and the tested fields are still read
+        calls = {a[5:] for a in g1 if a.startswith("call:")}
+        if calls:
+            gated = set()
+            for x in pool:
+                gated |= {_short_callee(c) for c in cs.get(x)["gates"]}
+                gated |= {a[5:] for a in cs.get(x)["universe"] if a.startswith("call:")}
+            if calls <= gated:
+                return True
+            return False
+        uni = set()
+        for x in pool:
+            uni |= set(cs.get(x)["universe"])
+        return g1 <= uni
+    for x in [k] + closures:
+        for cg in cs.get(x)["guards"]:
+            if cg[0] != g[0]:
+                continue
+            if g1 <= set(cg[1]) and g2 <= set(cg[2]):
+                return True
+            if g[0] == "Eq" and g1 <= set(cg[2]) and g2 <= set(cg[1]):
+                return True
+    return _guard_in_helper(ctx, k, [g[0], sorted(g1), sorted(g2)], closures)
 
 
 def check(ctx, prop):
@@ -453,165 +611,222 @@ def check(ctx, prop):
     roles = {}
     for k in F.fns:
         roles.setdefault(_closure_role(F, k), k)
-    n_must = n_order = n_args = 0
-    n_guards = [0]
-    n_silent = [0]
-    n_assign = [0]
+    cur_names, _bn = ws_short_names(F)
+    cs = _Cur(F)
+    n = collections.Counter()
     bad = 0
     for role, b in sorted(base.items()):
         k = roles.get(role)
-        if k is None and not b.get("named", True):
-            # a helper the property does not name was renamed, inlined or removed: its callers' summaries still constrain the behaviour
+        if k is None and (not b.get("named", True) or b.get("closure")):
+            # a helper the property does not name, or a closure, was renamed, inlined or removed: its callers' summaries still constrain the behaviour
             ctx.stats["baseline_helpers_gone"] = ctx.stats.get("baseline_helpers_gone", 0) + 1
             continue
         if k is None:
+            # a named function is gone: tolerated when every caller it had now passes the gates and state changes it used to pass (it was inlined)
+            callers = [roles.get(c) for c in b.get("callers", [])]
+            callers = [c for c in callers if c]
+            okc = bool(callers)
+            for c in callers:
+                have = set(cs.get(c)["must"]) | {x for cl in _cluster(F, c)[0] for x in cs.get(cl)["must"]}
+                have = {_short_callee(x) for x in have}
+                for m in b["must"]:
+                    mc = _short_callee(m)
+                    if mc in have or mc not in cur_names or ctx.ensures(c, pat("re:(?:^|::|<| )%s$" % re.escape(mc)), 2):
+                        continue
+                    okc = False
+            if okc:
+                ctx.stats["baseline_named_inlined"] = ctx.stats.get("baseline_named_inlined", 0) + 1
+                continue
             bad += 1
-            ctx.record("baseline", "R9", role, "function named by the property is present", "anchor-lost", [], ["function not found (renamed or removed): " + role], key_detail="lost:" + role)
+            ctx.record("baseline", "R9", role, "function named by the property is present", "anchor-lost", [], ["function not found (renamed or removed) and its callers do not pass its checks themselves: " + role], key_detail="lost:" + role)
             continue
         ctx.fn_seen.add(k)
-        cur = summarize(F, k)
+        cur = cs.get(k)
         fn = F.fns[k]
         where = fn_loc(fn)
-        # must (with helper tolerance: a callee that ensures the call)
+        closures, helpers = _cluster(F, k)
+        # ---- must (helper / closure tolerance: a callee or a closure of this function ensures the call)
+        cl_must = {_short_callee(x) for cl in closures for x in cs.get(cl)["must"]}
+        cur_must_short = {_short_callee(x) for x in cur["must"]}
         for m in b["must"]:
-            n_must += 1
-            if m in cur["must"]:
+            n["must"] += 1
+            mc = _short_callee(m)
+            if m in cur["must"] or mc in cur_must_short:
                 continue
-            callee = re.sub(r"\(.*$", "", m)
-            if ctx.ensures(k, pat("re:(?:^|::|<| )%s$" % re.escape(callee)), 2):
+            if _is_ws_short(F, mc) and mc not in cur_names:
+                continue  # the callee no longer exists (inlined or renamed): its own checks are what its callers' entries constrain
+            if mc in cl_must:
+                continue
+            if ctx.ensures(k, pat("re:(?:^|::|<| )%s$" % re.escape(mc)), 2):
                 continue
             bad += 1
             ctx.record("baseline-must", "R9", k, "%s: every non-error exit passes a successful %s" % (short(k, 2), m), "violation", [where],
                        ["on the confirmed tree every non-error exit of %s passed %s; now an exit avoids it (call dropped, made conditional, or its result ignored)" % (k, m)],
                        key_detail="must:" + m)
+        # ---- order
         cur_order = {tuple(x) for x in cur["order"]}
-        cur_keys = set(cur["args"]) | {x for pair in cur["order"] for x in pair} | set(cur["must"])
+        cur_sinks = {_short_callee(x) for x in cur["args"]} | {_short_callee(x) for pair in cur["order"] for x in pair[1:]} | {_short_callee(x) for x in cur["gates"]}
         for a, bk in b["order"]:
-            n_order += 1
-            if (a, bk) in cur_order or bk not in cur["args"]:
-                continue  # holds, or the state change is gone from this function (vacuous)
-            # helper tolerance: some callee ensures A before B is reached
-            callee = re.sub(r"\(.*$", "", a)
-            rx = pat("re:(?:^|::|<| )%s$" % re.escape(callee))
+            n["order"] += 1
+            if (a, bk) in cur_order:
+                continue
+            ac, bc = _short_callee(a), _short_callee(bk)
+            if (_is_ws_short(F, ac) and ac not in cur_names) or (_is_ws_short(F, bc) and bc not in cur_names):
+                continue  # one of the two no longer exists
+            targets = {bi for bi, t in F.calls(k) if _short_callee(call_key(fn, t, Exprs(fn))) == bc}
+            if not targets:
+                continue  # the state change is gone from this function (vacuous; a dropped state change is a `must` matter)
+            rx = pat("re:(?:^|::|<| )%s$" % re.escape(ac))
             sites = ctx._call_blocks(k, rx, 2)
-            targets = {bi for bi, t in F.calls(k) if _matches_key(fn, t, bk)}
             cuts = []
             for bi, _how in sites:
                 cuts += success_edges(fn, bi)[0]
-            if cuts and targets and reach(fn, [0], targets, cuts) is None:
+            if cuts and reach(fn, [0], targets, cuts) is None:
                 continue
             bad += 1
-            p2 = reach(fn, [0], targets, cuts) if targets else None
+            p2 = reach(fn, [0], targets, cuts)
             ctx.record("baseline-order", "R9", k, "%s: %s succeeds before %s" % (short(k, 2), a, bk), "violation", [where],
                        ["on the confirmed tree every path to %s passed a successful %s; now a path reaches it without" % (bk, a)] + (path_locs(fn, p2) if p2 else []),
                        key_detail="order:%s>%s" % (a, bk))
+        # ---- args: per callee, the origins of each argument (matched against every call of that callee in the function and its closures)
+        cur_args = collections.defaultdict(list)
+        for ck, alts in cur["args"].items():
+            cur_args[_short_callee(ck)] += [(k, alt) for alt in alts]
+        for x in closures:
+            # a call that moved from the function into one of its closures (loop body -> iterator adaptor) is compared there
+            for ck, alts in cs.get(x)["args"].items():
+                if _short_callee(ck) not in {_short_callee(c) for c in cur["args"]} and _closure_role(F, x) not in base:
+                    cur_args[_short_callee(ck)] += [(x, alt) for alt in alts]
+        base_args = collections.defaultdict(list)
         for bk, alts in b["args"].items():
-            if bk not in cur["args"]:
-                continue
-            for ci, cur_alt in enumerate(cur["args"][bk]):
-                n_args += 1
+            base_args[_short_callee(bk)] += alts
+        for bc, balts in sorted(base_args.items()):
+            for (x, cur_alt) in cur_args.get(bc, []):
+                n["args"] += 1
                 okay = False
-                for base_alt in alts:
-                    if len(base_alt) == len(cur_alt) and all(set(x) <= set(y) for x, y in zip(base_alt, cur_alt)):
+                best = None
+                for base_alt in balts:
+                    if len(base_alt) != len(cur_alt):
+                        continue
+                    miss = [sorted(_live_atoms(F, bx) - set(cy) - ({a for a in bx if a.startswith("arg")} if x != k else set())) for bx, cy in zip(base_alt, cur_alt)]
+                    if not any(miss):
                         okay = True
                         break
-                if okay:
+                    if best is None or sum(map(len, miss)) < sum(map(len, best)):
+                        best = miss
+                if okay or best is None:
                     continue
                 bad += 1
-                miss = []
-                base_alt = alts[min(ci, len(alts) - 1)]
-                for i, (x, y) in enumerate(zip(base_alt, cur_alt)):
-                    d = sorted(set(x) - set(y))
-                    if d:
-                        miss.append("argument %d no longer derives from %s (now from %s)" % (i, d, y[:6]))
-                ctx.record("baseline-args", "R9", k, "%s: arguments of %s keep their origins" % (short(k, 2), bk), "violation", [where],
-                           miss or ["argument count or origins changed: %s" % cur_alt], key_detail="args:" + bk)
-        # guards: every confirmed branch condition is still there with the same operator and operand origins
-        cur_g = list(cur.get("guards", []))
+                ctx.record("baseline-args", "R9", k, "%s: arguments of %s keep their origins" % (short(k, 2), bc), "violation", [where],
+                           ["argument %d no longer derives from %s (now from %s)" % (i, d, cur_alt[i][:8]) for i, d in enumerate(best) if d],
+                           key_detail="args:" + bc)
+        # ---- guards
         for g in b.get("guards", []):
-            n_guards[0] += 1
-            hit = None
-            for i, cg in enumerate(cur_g):
-                if cg[0] == g[0] and set(g[1]) <= set(cg[1]) and set(g[2]) <= set(cg[2]):
-                    hit = i
-                    break
-                if g[0] == "Eq" and cg[0] == "Eq" and set(g[1]) <= set(cg[2]) and set(g[2]) <= set(cg[1]):
-                    hit = i
-                    break
-            if hit is not None:
-                cur_g.pop(hit)
-                continue
-            if _guard_in_helper(ctx, k, g):
+            n["guards"] += 1
+            if _guard_present(ctx, cs, k, g, closures, helpers):
                 continue
             bad += 1
             ctx.record("baseline-guard", "R9", k, "%s: branch condition %s(%s ; %s) is present" % (short(k, 2), g[0], ",".join(g[1])[:80], ",".join(g[2])[:80]), "violation", [where],
                        ["on the confirmed tree %s branched on %s(%s ; %s); no branch with this operator and these operand origins remains (guard removed, weakened or its operands re-sourced)"
-                        % (k, g[0], g[1], g[2]), "remaining unmatched conditions: %s" % cur_g[:4]], key_detail="guard:%s:%s:%s" % (g[0], ",".join(g[1])[:60], ",".join(g[2])[:60]))
-        # silent: a state change must not become conditional on a new non-rejecting condition
+                        % (k, g[0], g[1], g[2]), "current conditions: %s" % [c for c in cur["guards"] if c[0] == g[0]][:4]], key_detail="guard:%s:%s:%s" % (g[0], ",".join(g[1])[:60], ",".join(g[2])[:60]))
+        # ---- silent: a state change must not become conditional on a new non-rejecting condition
+        base_cores = []
+        for bk, conds in b.get("silent", {}).items():
+            for (bs, _arm) in conds:
+                base_cores.append(_core(F, bs))
+        base_guard_cores = [_core(F, g) for g in b.get("guards", [])]
+        base_sinks = {_short_callee(x) for x in b.get("args", {})} | {_short_callee(x) for x in b.get("must", [])} | {_short_callee(x) for x in b.get("gates", [])}
         for bk, cur_conds in cur.get("silent", {}).items():
-            base_conds = b.get("silent", {}).get(bk)
-            if bk not in b.get("args", {}):
+            if _short_callee(bk) not in base_sinks:
                 continue  # a new state-changing call: nothing confirmed about it
             for (sig, arm) in cur_conds:
-                n_silent[0] += 1
-                okc = False
-                for (bs, barm) in (base_conds or []):
-                    if bs[0] == sig[0] and str(barm) == str(arm) and set(bs[1]) <= set(sig[1]) and set(bs[2]) <= set(sig[2]):
-                        okc = True
-                        break
-                if okc:
+                n["silent"] += 1
+                core = _core(F, sig)
+                if not core:
                     continue
+                if any(core <= bc_ or (bc_ and bc_ <= core) for bc_ in base_cores):
+                    continue
+                if any(core <= gc for gc in base_guard_cores if gc):
+                    # the condition itself is a confirmed one; it now also governs this call only if the call sat under it before
+                    if any(core <= _core(F, bs) or _core(F, bs) <= core for conds in b.get("silent", {}).values() for (bs, _a) in conds):
+                        continue
+                    if _short_callee(bk) in {_short_callee(x) for x in b.get("silent", {})}:
+                        continue
                 bad += 1
                 ctx.record("baseline-silent", "R9", k, "%s: %s is not skipped under a new condition" % (short(k, 2), bk), "violation", [where],
                            ["%s is now reached only when %s(%s ; %s) takes arm %s, and the other outcome carries on without it (on the confirmed tree it was not conditional on this)"
-                            % (bk, sig[0], sig[1], sig[2], arm)], key_detail="silent:%s:%s" % (bk, sig[0]))
+                            % (bk, sig[0], sig[1], sig[2], arm)], key_detail="silent:%s:%s" % (_short_callee(bk), sig[0]))
+        # ---- assigns
         for field, alts in b.get("assigns", {}).items():
             cur_alts = cur.get("assigns", {}).get(field)
             if not cur_alts:
                 continue  # the field is no longer written here (vacuous; a dropped write shows up in the hand tables / must set)
             for ca in cur_alts:
-                n_assign[0] += 1
-                if any(set(ba) <= set(ca) for ba in alts):
+                n["assign"] += 1
+                if any(_live_atoms(F, ba) <= set(ca) for ba in alts):
                     continue
                 bad += 1
                 ctx.record("baseline-assign", "R9", k, "%s: the value stored into .%s keeps its origins" % (short(k, 2), field), "violation", [where],
                            ["on the confirmed tree .%s was assigned from %s; now from %s" % (field, alts[:2], ca)], key_detail="assign:" + field)
-        cc = dict(cur.get("consts", {}))
-        missing = {kk: n for kk, n in b.get("consts", {}).items() if cc.get(kk, 0) < n}
+        # ---- consts, by value, over the function, its closures and direct helpers
+        want = collections.Counter()
+        for kk, cnt in b.get("consts", {}).items():
+            want[_const_value(kk)] += cnt
+        have = collections.Counter()
+        for kk, cnt in cur.get("consts", {}).items():
+            have[_const_value(kk)] += cnt
+        missing = {v: c for v, c in want.items() if have.get(v, 0) < c}
         if missing:
-            # helper tolerance: the arithmetic may have moved into a directly called workspace function
-            for hk in _direct_helpers(F, k):
-                for kk, n in const_census(F.fns[hk]).items():
-                    cc[kk] = cc.get(kk, 0) + n
-            missing = {kk: n for kk, n in b.get("consts", {}).items() if cc.get(kk, 0) < n}
-        n_assign[0] += len(b.get("consts", {}))
+            for x in closures + helpers:
+                for kk, cnt in cs.get(x)["consts"].items():
+                    have[_const_value(kk)] += cnt
+            missing = {v: c for v, c in want.items() if have.get(v, 0) < c}
+        n["consts"] += len(want)
         if missing:
             bad += 1
             ctx.record("baseline-consts", "R9", k, "%s: integer literals, named constants and match-arm values are kept" % short(k, 2), "violation", [where],
-                       ["on the confirmed tree %s computed with %s; these are gone or changed (now: %s)" % (k, missing, {x: n for x, n in cc.items() if x not in b.get("consts", {}) or n != b["consts"][x]})],
+                       ["on the confirmed tree %s computed with the values %s; these are gone or occur less often (now: %s)" % (k, dict(missing), {v: c for v, c in have.items() if v in missing})],
                        key_detail="consts:" + ",".join(sorted(missing))[:80])
+        # ---- ret
         if b.get("ret") and cur.get("ret") is not None:
-            n_assign[0] += 1
-            have = set(cur["ret"])
-            if not set(b["ret"]) <= have:
-                for hk in _direct_helpers(F, k):
-                    have |= set(summarize(F, hk).get("ret") or [])
-            if not set(b["ret"]) <= have:
+            n["ret"] += 1
+            need = _live_atoms(F, b["ret"])
+            have_r = set(cur["ret"])
+            if not need <= have_r:
+                for x in closures + helpers:
+                    have_r |= set(cs.get(x)["universe"]) | set(cs.get(x).get("ret") or [])
+            if not need <= have_r:
                 bad += 1
                 ctx.record("baseline-ret", "R9", k, "%s: the returned value keeps its origins and operators" % short(k, 2), "violation", [where],
-                           ["on the confirmed tree the result derived from %s; now from %s (missing %s)" % (b["ret"], cur["ret"], sorted(set(b["ret"]) - set(cur["ret"])))],
+                           ["on the confirmed tree the result derived from %s; now from %s (missing %s)" % (b["ret"], cur["ret"], sorted(need - have_r))],
                            key_detail="ret")
     ctx.stats["baseline_functions"] = len(base)
-    ctx.stats["baseline_assign_ret"] = n_assign[0]
-    ctx.stats["baseline_guards"] = n_guards[0]
-    ctx.stats["baseline_silent"] = n_silent[0]
-    ctx.stats["baseline_must"] = n_must
-    ctx.stats["baseline_order"] = n_order
-    ctx.stats["baseline_args"] = n_args
+    for kk, v in n.items():
+        ctx.stats["baseline_" + kk] = v
     if not bad:
         ctx.record("baseline", "R9", None, "confirmed-instance baseline: %d functions, %d must-pass, %d check-before-change, %d argument-origin, %d branch-condition, %d no-new-skip instances hold" % (
-            len(base), n_must, n_order, n_args, n_guards[0], n_silent[0]), "hold", sorted(base)[:6])
+            len(base), n["must"], n["order"], n["args"], n["guards"], n["silent"]), "hold", sorted(base)[:6])
     return not bad
+
+
+def _is_ws_short(F, name):
+    cur, base = ws_short_names(F)
+    return name in cur or name in base
+
+
+def _core(F, sig):
+    """The stable, non-representational part of a condition: parameter paths, fields, workspace calls."""
+    out = set()
+    for a in list(sig[1]) + list(sig[2]):
+        if a.startswith("val:") or a.startswith("op:"):
+            continue
+        out.add(a)
+    return _live_atoms(F, out)
+
+
+def _const_value(key):
+    m = re.search(r"(?:=|^arm:|^)(-?\d+)$", key)
+    return m.group(1) if m else key
 
 
 def _direct_helpers(F, k):
@@ -623,24 +838,29 @@ def _direct_helpers(F, k):
     return out
 
 
-def _guard_in_helper(ctx, k, g):
-    """A confirmed branch condition that moved into a directly called workspace helper (matched with the helper's parameters
-    replaced by the caller's argument expressions)."""
+def _guard_in_helper(ctx, k, g, closures=()):
+    """A confirmed comparison that moved into a directly called workspace helper (matched with the helper's parameters replaced by the
+    caller's argument expressions)."""
     F = ctx.F
-    f = F.fns[k]
-    exf = Exprs(f)
-    for cbi, t in F.calls(k):
-        for gname in callee_names(t):
-            if gname not in F.fns or gname == k or F.fns[gname]["kind"] == "Closure":
-                continue
-            gf = F.fns[gname]
-            args = [exf.operand(a) for a in t["args"]]
-            for bi, e, arms, els in switch_conditions(gf):
-                if _is_try_switch(gf, bi):
+    for x in [k] + list(closures):
+        f = F.fns[x]
+        exf = Exprs(f)
+        for cbi, t in F.calls(x):
+            for gname in callee_names(t):
+                if gname not in F.fns or gname == x or F.fns[gname]["kind"] == "Closure":
                     continue
-                sig = cond_signature(subst(e, args))
-                if sig and sig[0] == g[0] and set(g[1]) <= set(sig[1]) and set(g[2]) <= set(sig[2]):
-                    return True
+                gf = F.fns[gname]
+                args = [exf.operand(a) for a in t["args"]]
+                for bi, e, arms, els in switch_conditions(gf):
+                    if _is_try_switch(gf, bi):
+                        continue
+                    sig = cond_signature(F, subst(e, args))
+                    if not sig or sig[0] != g[0]:
+                        continue
+                    if set(g[1]) <= set(sig[1]) and set(g[2]) <= set(sig[2]):
+                        return True
+                    if g[0] == "Eq" and set(g[1]) <= set(sig[2]) and set(g[2]) <= set(sig[1]):
+                        return True
     return False
 
 
